@@ -7,11 +7,15 @@
 
 #define PFOR_HEX_MAX 100000 /* encodings longer than this are printed as head + hash */
 
-static const char *frame_after(const gbuf *g, size_t used) {
-    for (size_t i = used; i < g->size; i++) {
-        if (g->p[i] != gbuf_canary((size_t)(g->p - g->base) + i)) return "dirty";
+/* The destination is a gbuf of `size` advertised bytes followed by PFOR_SLACK
+ * more canary bytes of our own, so that an overrun of a few hundred bytes is
+ * reported as guard=hi instead of corrupting the allocator. */
+#define PFOR_SLACK 65536
+static int canary_intact(const gbuf *g, size_t from, size_t to) {
+    for (size_t i = from; i < to; i++) {
+        if (g->p[i] != gbuf_canary((size_t)(g->p - g->base) + i)) return 0;
     }
-    return "ok";
+    return 1;
 }
 
 static void out_meta(const char *pfx, const varintPFORMeta *m) {
@@ -84,14 +88,14 @@ static void h_pfor_enc(const vcase *c) {
     size_t size = varintPFORSize(&ct);
     out_u64("size", size);
 
-    gbuf g = gbuf_new(size, 0);
+    gbuf g = gbuf_new(size + PFOR_SLACK, 0);
     varintPFORMeta m;
     memset(&m, 0xEE, sizeof m);
     size_t w = varintPFOREncode(g.p, xs, (uint32_t)n, thr, &m);
     out_u64("n", w);
-    out_str("frame", frame_after(&g, w));
-    out_str("guard", gbuf_guard(&g));
-    size_t take = w <= size + g.pad ? w : size + g.pad;
+    out_str("frame", canary_intact(&g, w < size ? w : size, size) ? "ok" : "dirty");
+    out_str("guard", canary_intact(&g, size, size + PFOR_SLACK) ? gbuf_guard(&g) : "hi");
+    size_t take = w <= size + PFOR_SLACK ? w : size + PFOR_SLACK;
     out_bytes("enc", g.p, take);
     out_meta("m_", &m);
     out_u64("size2", varintPFORSize(&m));
